@@ -1264,6 +1264,7 @@ class mulgrid(object):
 
     def read_header(self, geo):
         """Reads grid header info from file geo"""
+        self._block_order_int = None # (blank in header if not specified)
         geo.read_value_line(self.__dict__, 'header')
         self.convention = self._convention
         self.atmosphere_type = self._atmosphere_type
@@ -1275,6 +1276,7 @@ class mulgrid(object):
             self._block_order = block_orders[self._block_order_int]
         elif self._block_order_int is not None:
             raise Exception('Unrecognised mulgrid block order: %d')
+        else: self._block_order = None
 
     def read_nodes(self, geo):
         """Reads grid nodes from file geo"""
